@@ -75,6 +75,16 @@ func c15Run(c c15Case) (string, string) {
 			w.in(w.msg("1", "112=p"))
 		case "App":
 			w.in(w.msg("D", "11=x"))
+		case "LogoutRelogon":
+			// an earlier, completed logout exchange on the same session, then the peer logs on again: this is the
+			// second life of the session object when the ending begins
+			_ = w.s.Logout()
+			vsched.Settle()
+			w.in(w.msg("5"))
+			w.in(w.msg("A", "98=0", "108="+fmt.Sprint(c.HB)))
+			if !w.s.IsLogged() {
+				return "setup:relogon-not-accepted", outsStr(w.outs)
+			}
 		case "Send":
 			_ = w.s.Send(fixgen.NewMarketDataRequest())
 			vsched.Settle()
@@ -299,6 +309,17 @@ func runC15(R *vlib.Out) {
 						if !try(c15Case{Role: role, CloseMs: ct, Ending: "stop", Answer: a, HB: 30, Veto: true}) {
 							return
 						}
+					}
+				}
+				if len(p) == 0 {
+					for _, a := range []string{"never", "before", "at", "after"} {
+						if !try(c15Case{Role: role, CloseMs: ct, Prefix: []string{"LogoutRelogon"}, Ending: "stop", Answer: a, HB: 30}) {
+							return
+						}
+					}
+					if !try(c15Case{Role: role, CloseMs: ct, Prefix: []string{"LogoutRelogon"}, Ending: "peer-logout", HB: 30}) ||
+						!try(c15Case{Role: role, CloseMs: ct, Prefix: []string{"LogoutRelogon"}, Ending: "local-logout", Answer: "answer", HB: 30}) {
+						return
 					}
 				}
 				if role == "ini" && len(p) <= 1 {
